@@ -146,7 +146,8 @@ def codec_str(typ, p, s):
     return type(r2.get("default")) is str and r2["default"] == s and r2["doc"] == _norm(p)
 
 
-CODE_POOL = ("```(np.empty(0), np.empty(0))```", "```[]```", "```foo.bar()```", "```(None)```", "```{'a': 1}```")
+CODE_POOL = ("```(np.empty(0), np.empty(0))```", "```[]```", "```foo.bar()```", "```(None)```", "```{'a': 1}```",
+             "```(np.ones(3) * 2).astype(int)```", "```[1, 2][0]```")
 
 
 def codec_code(i, p):
